@@ -1015,6 +1015,73 @@ def wr7(p, res):
     return n
 
 
+# ------------------------------------------------------------------ WR-8
+def wr8(p, res, rule="WR-8"):
+    """accumulation loops: inside a loop (or a for_each closure) over inputs, the first operation on a result column that does not change between
+    iterations must not be an overwrite-type operation - every iteration would discard what the previous ones produced"""
+    n = 0
+    for f in sorted(p.lib_fns(), key=lambda x: x.uid):
+        if f.kind == "Closure" or f.is_test() or not f.uid.startswith(("poulpy_cpu_ref::reference::vec_znx", "poulpy_cpu_ref::reference::fft64", "poulpy_cpu_ref::reference::ntt120")):
+            continue
+        pn = f.param_names()
+        outs = [l for l in range(1, f.argc + 1) if f.local_ty(l).get("r", "").startswith("&mut") and pn.get(l) in ("res",)]
+        if not outs:
+            continue
+        # loop bodies: closures handed to for_each, and natural loops of the function itself
+        bodies = []
+        for cl in p.closures_of(f):
+            drv = [(b2, t2) for b2, t2 in f.calls() if cl.uid in f.callee_closures(t2)]
+            if drv and (f.callee_def(drv[0][1]) or {}).get("n") in ("for_each", "try_for_each"):
+                bodies.append(("closure", cl, drv[0]))
+        g = CFG(f)
+        for L in g.loops():
+            bodies.append(("loop", L, None))
+        for kind, body, drv in bodies:
+            if kind == "closure":
+                cl = body
+                cflow = Flow(cl, transparent=wr.VIEW_T)
+                fflow = Flow(f, transparent=wr.VIEW_T)
+                # captures that are views of the output parameter, and captures that are loop-invariant scalars
+                site = None
+                for bb, blk in enumerate(f.blocks):
+                    for st in blk["s"]:
+                        if st[0] == "A" and st[2]["k"] == "Agg" and st[2].get("ak") == "Closure" and f.duid(st[2]["clos"]) == cl.uid:
+                            site = st
+                if site is None:
+                    continue
+                out_caps = set()
+                for k, o in enumerate(site[2]["o"]):
+                    if o[0] in ("c", "m") and any(r[0] == "param" and r[1] in outs for r in fflow.op_roots(o)):
+                        out_caps.add(str(k))
+                if not out_caps:
+                    continue
+                first = None
+                for bi, t in sorted(cl.calls()):
+                    d = cl.callee_def(t) or {}
+                    if not d.get("u", "").startswith("poulpy_cpu_ref::reference"):
+                        continue
+                    for ai, a in enumerate(t["a"][:-1]):
+                        if a[0] in ("c", "m") and any(r[0] == "param" and r[1] == 1 and r[2][:1] and r[2][0] in out_caps for r in cflow.op_roots(a)):
+                            col_roots = cflow.op_roots(t["a"][ai + 1])
+                            varies = any(r[0] == "param" and r[1] >= 2 for r in col_roots) or any(r[0] == "call" for r in col_roots)
+                            first = (d.get("n", ""), varies, t["l"])
+                            break
+                    if first:
+                        break
+                n += 1
+                if first is None:
+                    res.ok(rule, {"fn": f.pretty, "first_op_on_result": "none on a captured result column (outputs selected by the loop item)"})
+                    continue
+                name, varies, line = first
+                if wr.base_name(name) in wr.OVERWRITE and not varies:
+                    res.bad(rule, f.pretty, "overwrite-in-accumulation-loop:%s" % name,
+                            "%s: inside its loop over the inputs the first operation on the result column is `%s`, an overwrite-type operation on a column that does not change between iterations: every iteration discards what the previous ones produced (only the last input contributes)"
+                            % (f.pretty, name), site=cl.where(line))
+                else:
+                    res.ok(rule, {"fn": f.pretty, "first_op_on_result": name, "column_varies": varies})
+    return n
+
+
 def run(res, tier):
     res.level = "other"
     res.explanation = ("Shape-level clauses of C11 on MIR of every HAL shape function of the reference and AVX crates (functions with an (X, X_col) operand pair): for overwrite-type "
@@ -1026,6 +1093,7 @@ def run(res, tier):
     res.rule("WR-2", "every at/at_mut on a view of operand X takes X_col as its column (polynomial identity, closures included)")
     res.rule("WR-3", "pointers from as_ptr() of read-only slice operands never become store destinations")
     res.rule("COL-2", "core noise-free operations read an operand at the loop's column index only below the operand's own rank + 1 (bound equal, min-dominated, or ranks asserted equal)")
+    res.rule("WR-8", "inside a for_each over inputs the first operation on a loop-invariant result column is not an overwrite-type operation (every iteration would discard the previous ones)")
     res.rule("WR-7", "block extraction into an output operand: rows extracted + rows zero-filled = rows of the destination block (or the extraction alone covers it, in the frame that sizes the temporary)")
     res.rule("WR-6", "carry buffers of shift / normalisation shape functions are written (first_step* kernel or znx_zero) before any middle/final step reads them on every feasible path, zero-trip loops included (a skipped `for j in 0..T` implies T == 0)")
     res.rule("WR-5", "every mutable use of a column-selected output operand is column-selective (at_mut / zero_at), a re-view, or a hand-over to another shape function; whole-object mutators are violations (five raw-offset functions listed by name)")
@@ -1051,6 +1119,8 @@ def run(res, tier):
         res.floor("COL-2", "read operands indexed by a column loop", nc2, 10)
         n6 = wr6(p, res)
         res.floor("WR-6", "shape functions with a carry buffer", n6, 6)
+        n8 = wr8(p, res)
+        res.floor("WR-8", "for_each bodies operating on a result column", n8, 1)
         n7 = wr7(p, res)
         res.floor("WR-7", "block extractions into an output operand", n7, 2)
         n5 = wr5(p, res)
